@@ -68,11 +68,16 @@ class AbstractTemplateEnginePlugin(object):
             raise ConfigurationError('Unknown lookup errors mode "%s"' %
                                      lookup_errors)
 
-        try:
-            allow_exec = bool(options.get('genshi.allow_exec', True))
-        except ValueError:
-            raise ConfigurationError('Invalid value for allow_exec "%s"' %
-                                     options.get('genshi.allow_exec'))
+        allow_exec = options.get('genshi.allow_exec', True)
+        if isinstance(allow_exec, six.string_types):
+            if allow_exec.lower() in ('1', 'on', 'yes', 'true'):
+                allow_exec = True
+            elif allow_exec.lower() in ('0', 'off', 'no', 'false'):
+                allow_exec = False
+            else:
+                raise ConfigurationError('Invalid value for allow_exec "%s"' %
+                                         options.get('genshi.allow_exec'))
+        allow_exec = bool(allow_exec)
 
         self.loader = TemplateLoader([p for p in search_path if p],
                                      auto_reload=auto_reload,
